@@ -16,4 +16,5 @@ let table : (string * (Model.sx -> Model.sx)) list = [
   "consensus", Model.check_consensus;
   "trie", Model.check_trie;
   "evmarith", Model.check_evmarith;
+  "evmapp", Model.check_evmapp;
 ]
